@@ -307,6 +307,7 @@ const (
 type deferred struct {
 	call *ast.CallExpr
 	env  *env
+	run  func() error
 }
 
 type frame struct {
@@ -402,6 +403,12 @@ func (in *Interp) callDecl(info *types.Info, recvList *ast.FieldList, ftype *ast
 		}
 		for i := len(f.defers) - 1; i >= 0; i-- {
 			d := f.defers[i]
+			if d.run != nil {
+				if err := d.run(); err != nil {
+					return nil, err
+				}
+				continue
+			}
 			f.env = d.env
 			if _, err := f.call(d.call); err != nil {
 				return nil, err
@@ -503,6 +510,28 @@ func (f *frame) stmt(s ast.Stmt) (ctl, error) {
 		_, err := f.exprMulti(s.X)
 		return ctlNone, err
 	case *ast.DeferStmt:
+		if id, ok := s.Call.Fun.(*ast.Ident); ok && id.Name == "delete" && len(s.Call.Args) == 2 {
+			if _, isBuiltin := f.info.Uses[id].(*types.Builtin); isBuiltin {
+				// arguments are evaluated now, the deletion happens at return
+				mv, err := f.expr(s.Call.Args[0])
+				if err != nil {
+					return ctlNone, err
+				}
+				kv, err := f.expr(s.Call.Args[1])
+				if err != nil {
+					return ctlNone, err
+				}
+				f.defers = append(f.defers, deferred{run: func() error {
+					if m, ok := mv.(*Map); ok && m != nil {
+						ks := keyString(kv)
+						delete(m.M, ks)
+						delete(m.Keys, ks)
+					}
+					return nil
+				}})
+				return ctlNone, nil
+			}
+		}
 		if len(s.Call.Args) != 0 {
 			return ctlNone, unsup(s.Pos(), "defer of a call with arguments")
 		}
@@ -2159,6 +2188,32 @@ func (f *frame) call(e *ast.CallExpr) ([]Value, error) {
 				return []Value{int64(0)}, nil
 			}
 			return nil, unsup(e.Pos(), "len of %T", v)
+		case "copy":
+			if err := evalArgs(); err != nil {
+				return nil, err
+			}
+			dst, ok1 := args[0].(*Slice)
+			n := 0
+			switch src := args[1].(type) {
+			case *Slice:
+				if ok1 && dst != nil && src != nil {
+					for n < len(*dst.Elems) && n < len(*src.Elems) {
+						(*dst.Elems)[n] = copyVal((*src.Elems)[n])
+						n++
+					}
+				}
+			case string:
+				if ok1 && dst != nil {
+					for n < len(*dst.Elems) && n < len(src) {
+						(*dst.Elems)[n] = int64(src[n])
+						n++
+					}
+				}
+			case nil:
+			default:
+				return nil, unsup(e.Pos(), "copy from %T", args[1])
+			}
+			return []Value{int64(n)}, nil
 		case "make":
 			switch mt := f.info.TypeOf(e.Args[0]).Underlying().(type) {
 			case *types.Map:
